@@ -69,11 +69,15 @@ Theorem C06_matcher_type : forall (l : list str) (p : pkt),
   (forall k, stanza_type (POther k) = None).
 Proof. intros l p. split; [apply type_matcher_sem | exact stanza_type_def]. Qed.
 
-(* IQ payload namespace: an IQ whose Payload is non-nil with Namespace() in the list *)
+(* IQ payload namespace: an IQ with a payload — typed (Payload) or, for payload types
+   the stanza registry does not know, generic (Any) — whose namespace is, verbatim, one of
+   the namespaces given; namespace names are case-sensitive *)
 Theorem C06_matcher_ns : forall (l : list str) (p : pkt),
-  m_match (b_iq_namespaces l) p = true <->
-  exists a ns any, p = PIQ a (Some ns) any /\ In ns (map lower l).
-Proof. exact ns_matcher_sem. Qed.
+  (m_match (b_iq_namespaces l) p = true <->
+     exists a ns any n, p = PIQ a ns any /\ iq_namespace ns any = Some n /\ In n l) /\
+  (forall n any, iq_namespace (Some n) any = Some n) /\
+  (forall any, iq_namespace None any = any).
+Proof. intros l p. split; [apply ns_matcher_sem | exact iq_namespace_def]. Qed.
 
 (* "An IQ request (get or set) that matches no route is answered with exactly one
    feature-not-implemented error carrying the request's id with from/to swapped, and
@@ -100,10 +104,15 @@ Theorem C06_matched_no_reply : forall (t : table) (pend : list str) (p : pkt) (i
   first_accepting t p i -> replies (fst (do_route t pend p)) = [].
 Proof. exact matched_no_reply. Qed.
 
-(* the sequential part of the IQ-result table: an IQ whose id is pending goes to the
-   waiting request only (no route consulted, no reply), and the id is unregistered;
-   any other packet leaves the table alone and is delivered to nobody. *)
+(* the sequential part of the IQ-result table: only a response (result / error) whose id
+   is pending goes to the waiting request — and then to it only (no route consulted, no
+   reply), the id being unregistered; any other packet leaves the table alone and is
+   delivered to nobody.  In particular a request (get / set) that happens to carry the id
+   of one of our own pending requests is routed like any other request. *)
 Theorem C06_pending : forall (t : table) (pend : list str) (p : pkt),
+  (pending_hit pend p = true <->
+     exists a ns any, p = PIQ a ns any /\
+       (a_type a = s_result \/ a_type a = s_error) /\ In (a_id a) pend) /\
   (pending_hit pend p = true ->
      exists a ns any, p = PIQ a ns any /\
        handler_log (fst (do_route t pend p)) = [] /\
@@ -113,25 +122,33 @@ Theorem C06_pending : forall (t : table) (pend : list str) (p : pkt),
   (pending_hit pend p = false ->
      deliveries (fst (do_route t pend p)) = [] /\ snd (do_route t pend p) = pend).
 Proof.
-  intros t pend p. split; [apply pending_delivery | apply not_pending_no_delivery].
+  intros t pend p. split; [apply pending_hit_iff|].
+  split; [apply pending_delivery | apply not_pending_no_delivery].
 Qed.
+
+Theorem C06_request_never_a_response : forall (pend : list str) (a : attrs) (ns any : option str),
+  a_type a = s_get \/ a_type a = s_set -> pending_hit pend (PIQ a ns any) = false.
+Proof. exact request_not_pending. Qed.
 
 (* non-vacuity: catch-all in a non-final position shadowing a later exact route, a
    conjunction name+type+namespace given in mixed case, an unmatched get, a pending id *)
 Example C06_example :
-  let disco := [117;114;110;58;120] in
+  let nsx := [117;114;110;58;88] in                        (* "urn:X": case kept *)
   let a ty := {| a_type := ty; a_id := [49]; a_from := [97]; a_to := [98] |} in
-  let t := [ [b_packet [73;81]; b_stanza_type [[71;69;84]]; b_iq_namespaces [[85;82;78;58;88]]];
+  let t := [ [b_packet [73;81]; b_stanza_type [[71;69;84]]; b_iq_namespaces [nsx]];
              [b_packet [77;101;115;115;97;103;101]; b_stanza_type [s_normal]];
              [];
              [b_packet s_presence] ] in
-  route_pkt t [] (PIQ (a s_get) (Some disco) false) = (Some 0%nat, []) /\
+  route_pkt t [] (PIQ (a s_get) (Some nsx) None) = (Some 0%nat, []) /\
+  route_pkt t [] (PIQ (a s_get) None (Some nsx)) = (Some 0%nat, []) /\       (* unregistered payload type *)
+  route_pkt t [] (PIQ (a s_get) (Some (lower nsx)) None) = (Some 2%nat, []) /\ (* another namespace *)
   route_pkt t [] (PMessage (a [])) = (Some 1%nat, []) /\
   route_pkt t [] (PPresence (a [])) = (Some 2%nat, []) /\
-  route_pkt (firstn 2 t) [] (PIQ (a s_set) None true) = (None, [err_reply (a s_set)]) /\
-  route_pkt (firstn 2 t) [] (PIQ (a s_error) None false) = (None, []) /\
+  route_pkt (firstn 2 t) [] (PIQ (a s_set) None (Some nsx)) = (None, [err_reply (a s_set)]) /\
+  route_pkt (firstn 2 t) [[49]] (PIQ (a s_set) None None) = (None, [err_reply (a s_set)]) /\ (* id clash *)
+  route_pkt (firstn 2 t) [] (PIQ (a s_error) None None) = (None, []) /\
   route_pkt (firstn 2 t) [] (POther 0) = (None, []) /\
-  do_route t [[50]; [49]] (PIQ (a s_get) (Some disco) false) = ([EDeliver (a s_get)], [[50]]).
+  do_route t [[50]; [49]] (PIQ (a s_result) (Some nsx) None) = ([EDeliver (a s_result)], [[50]]).
 Proof. vm_compute. repeat split. Qed.
 
 Print Assumptions C06_first_match.
@@ -146,3 +163,4 @@ Print Assumptions C06_auto_reply.
 Print Assumptions C06_err_reply.
 Print Assumptions C06_matched_no_reply.
 Print Assumptions C06_pending.
+Print Assumptions C06_request_never_a_response.
